@@ -1145,6 +1145,7 @@ func runC10(p *core.Prog, r *core.Result) {
 		"R10.9 the clone behind a repository object is used by one goroutine at a time: every operation on the go-git repository held by a vcs repository type, on its work tree (Checkout) and every copy of its work-tree directory happens while a mutex of that object is held (the constructor excepted: the object is not shared yet) - the resolver shares one repository object between all fetches of a project and the MVS library loads requirements in parallel, so without the lock 'check out A, check out B, copy, copy' stores B's tree in the download cache under A's name",
 		"R10.10 which configuration file a project (the root or a requirement) is read from does not depend on the download cache: where a fallback from dawn.toml to .dawnconfig is decided by a 'does not exist' test on an error, that error comes from accessing that one file only (an os call, or a module function whose static closure contains a single file access) - not from a whole load that also computes the build list, whose wrapped not-exist errors (a cache entry without a configuration file) would read as 'dawn.toml is missing' and silently configure the project from a left-over .dawnconfig",
 		"R10.11 an entry of the download cache appears all at once: a path below Resolver.cacheDir is handed only to os.Stat (is it cached?), to os.MkdirAll through filepath.Dir (the parent), and to os.Rename as the destination of a staged download - never to the fetch itself or to any other call that fills it piecemeal, and the staged tree lives in a temporary directory below the cache (same file system, so the rename cannot fail with a cross-device error that only a cold cache meets); the cache-hit test is the existence of the directory, so a half-written entry (an interrupted download, a second process looking on) would count as complete and be resolved from whatever configuration file happens to be there already",
+		"R10.12 each project is one node under one spelling: the configuration loader stores every requirement back into the configuration it returns with its path passed through CleanPath, unconditionally inside its loop over the requirements (otherwise `p@v1`, `p/./x` and `p` are resolved and listed as different projects, and a cold cache fails where a warm one lists the project twice)",
 		"R10.5 a fetched project's summary lists every requirement of its configuration, one to one, in sorted name order",
 	}
 	r.NotDecided = []string{"that the result is the minimal-version-selection solution for all graphs (the algorithm lives in github.com/pgavlin/mvs, outside the repository; behavioural)", "network/VCS behaviour behind the resolver"}
@@ -1638,6 +1639,7 @@ func runC10(p *core.Prog, r *core.Result) {
 
 	// ---- R10.11 cache entries are created by rename only
 	checkCacheEntryAtomic(p, r, "R10.11")
+	checkRequirementPathsNormalised(p, r, "R10.12")
 
 	// ---- R10.10 the fallback between configuration file names is decided by that file alone
 	checkConfigFallback(p, r, "R10.10")
@@ -1768,6 +1770,7 @@ func runC11(p *core.Prog, r *core.Result) {
 		"R11.4 requesting the version that is already selected returns the root's requirements unchanged",
 		"R11.8 a ref resolves against its closest tagged ancestor: in resolveRefQuery the walk over the revision's history (newest first) can be left - the yield function of the range over History() has a `return false` - and the assignment of the matching version is followed by leaving its loop with an exit that goes beyond the enclosing search; otherwise every older tagged ancestor overwrites the match, the pseudo-version is based on the oldest release, and an upgrade by ref lowers the project",
 		"R11.9 the queries that answer relative to the current version (patch, upgrade: the resolvers that are handed the build list) never answer below it: each compares its candidate with the current version through semver.Compare, and a candidate taken from the repository's version list is returned only on the edge where that comparison says it is greater - a project that sits on a pseudo-version ahead of the newest tag of its series would otherwise be 'upgraded' to that older tag, which get then carries out as a downgrade that lowers its dependents",
+		"R11.10 a resolution step that fails (listing versions, resolving or fetching a project) fails the requirement operation: in package internal/mvs no return on the failing edge of a fallible in-module call reports success (an upgrade that silently keeps the old version of a project whose versions could not be listed reports a build list that is not the upgraded one, and repeating it changes the requirements again)",
 		"R11.7 the version lists and summaries that upgrade, downgrade and tidy consult come from resolver caches keyed by the whole of what the cached value was computed from (two major versions of one project path do not share an entry): an edit cannot be answered with another project's versions (rule shared with C10 R10.1)",
 	}
 	r.NotDecided = []string{"build-list equalities after tidy/upgrade/downgrade (algorithm in a dependency; behavioural)", "query resolution against tagged versions (ranges, latest, patch)"}
@@ -1779,6 +1782,7 @@ func runC11(p *core.Prog, r *core.Result) {
 
 	// ---- R11.9
 	checkRelativeQueriesNeverLower(p, r, "R11.9")
+	checkResolutionErrorsPropagated(p, r, "R11.10")
 	// ---- R11.1
 	impls := 0
 	for _, fn := range p.ModuleFuncs() {
